@@ -961,25 +961,35 @@ def t_idiv(p, q, ctx):
     if qc is not None and pc is not None and qc != 0:
         return Poly.const(pc // qc)
     if qc is not None and qc > 0:
-        # split p = qc*A + R with 0 <= R < qc (all coefficients of A divisible)
+        # split p = qc*A + R with 0 <= R < qc.  Each monomial c*m (m a product of non-negative integer atoms) is split
+        # as (c div qc)*qc*m + (c mod qc)*m.
         a_part, r_part = {}, {}
         for m, c in p.t.items():
-            if (c / qc).denominator == 1 and m != ():
+            if m == ():
+                r_part[m] = c
+                continue
+            if c.denominator == 1 and qc.denominator == 1 and _mono_nonneg_int(m, ctx):
+                qq, rr = divmod(c.numerator, qc.numerator)
+                if qq:
+                    a_part[m] = Fr(qq)
+                if rr:
+                    r_part[m] = Fr(rr)
+            elif (c / qc).denominator == 1:
                 a_part[m] = c / qc
             else:
                 r_part[m] = c
-        r = Poly(r_part)
-        rlo, rhi = ctx.rng(r)
-        if rlo >= 0 and rhi < qc:
-            return Poly(a_part)
-        # constant part may exceed qc
-        if () in r_part and len(r_part) > 0:
-            c0 = r_part[()]
-            kq = c0 // qc
-            r2 = r - Poly.const(kq * qc)
-            rlo, rhi = ctx.rng(r2)
+        if a_part:
+            r = Poly(r_part)
+            rlo, rhi = ctx.rng(r)
             if rlo >= 0 and rhi < qc:
-                return Poly(a_part) + Poly.const(kq)
+                return Poly(a_part)
+            c0 = r_part.get((), Fr(0))
+            kq = c0 // qc
+            if kq:
+                r2 = r - Poly.const(kq * qc)
+                rlo, rhi = ctx.rng(r2)
+                if rlo >= 0 and rhi < qc:
+                    return Poly(a_part) + Poly.const(kq)
         lo, hi = ctx.rng(p)
         if lo >= 0 and hi < qc:
             return ZERO
@@ -988,6 +998,19 @@ def t_idiv(p, q, ctx):
     if lo == hi and lo not in (INF, -INF):
         return Poly.const(lo)
     return r
+
+
+def _mono_nonneg_int(m, ctx):
+    for a, pw in m:
+        if pw < 1:
+            return False
+        integer = a in ctx.int_atoms or a[0] in ('idiv', 'mod', 'f2i', 'bitand', 'bitor', 'shr', 'shl')
+        if not integer:
+            return False
+        lo, hi = ctx.atom_range(a)
+        if lo < 0:
+            return False
+    return True
 
 
 def t_mod(p, q, ctx):
@@ -1002,7 +1025,16 @@ def t_mod(p, q, ctx):
             return p
         a_part, r_part = {}, {}
         for m, c in p.t.items():
-            if (c / qc).denominator == 1 and m != ():
+            if m == ():
+                r_part[m] = c
+                continue
+            if c.denominator == 1 and qc.denominator == 1 and _mono_nonneg_int(m, ctx):
+                qq, rr = divmod(c.numerator, qc.numerator)
+                if qq:
+                    a_part[m] = Fr(qq * qc.numerator)
+                if rr:
+                    r_part[m] = Fr(rr)
+            elif (c / qc).denominator == 1:
                 a_part[m] = c
             else:
                 r_part[m] = c
@@ -1085,7 +1117,7 @@ def t_f2i(p, tlo, thi, ctx):
 
 
 def t_bitand(p, q, ctx):
-    p, q = as_poly(p), as_poly(q)
+    p, q = _point(as_poly(p), ctx), _point(as_poly(q), ctx)
     pc, qc = p.const_value(), q.const_value()
     if pc is not None and qc is not None:
         return Poly.const(int(pc) & int(qc))
@@ -1109,8 +1141,16 @@ def t_bitand(p, q, ctx):
     return Poly.atom(('bitand', a, b))
 
 
+def _point(p, ctx):
+    if p.const_value() is None:
+        lo, hi = ctx.rng(p)
+        if lo == hi and lo not in (INF, -INF):
+            return Poly.const(lo)
+    return p
+
+
 def t_bitor(p, q, ctx):
-    p, q = as_poly(p), as_poly(q)
+    p, q = _point(as_poly(p), ctx), _point(as_poly(q), ctx)
     pc, qc = p.const_value(), q.const_value()
     if pc is not None and qc is not None:
         return Poly.const(int(pc) | int(qc))
